@@ -2,10 +2,12 @@ package main
 
 import (
 	"context"
+	"strings"
 
 	"github.com/twmb/franz-go/pkg/kmsg"
 
 	"github.com/KafScale/platform/pkg/acl"
+	"github.com/KafScale/platform/pkg/metadata"
 	"github.com/KafScale/platform/pkg/protocol"
 )
 
@@ -27,10 +29,19 @@ func vsymMalloryRules(variant int) []acl.PrincipalRules {
 		return []acl.PrincipalRules{alice, {Name: "mallory"}}
 	case 2:
 		return []acl.PrincipalRules{alice, {Name: "mallory", Deny: []acl.Rule{{Action: acl.ActionAny, Resource: acl.ResourceAny, Name: "*"}}}}
+	case 3:
+		return []acl.PrincipalRules{alice, {Name: "mallory", Allow: []acl.Rule{
+			{Action: acl.ActionAny, Resource: acl.ResourceTopic, Name: "other*"},
+			{Action: acl.ActionAny, Resource: acl.ResourceGroup, Name: "other*"},
+		}}}
 	}
+	// exact rules for names that differ from the targets only in letter case (names are case-sensitive)
 	return []acl.PrincipalRules{alice, {Name: "mallory", Allow: []acl.Rule{
-		{Action: acl.ActionAny, Resource: acl.ResourceTopic, Name: "other*"},
-		{Action: acl.ActionAny, Resource: acl.ResourceGroup, Name: "other*"},
+		{Action: acl.ActionAny, Resource: acl.ResourceTopic, Name: "T0"},
+		{Action: acl.ActionAny, Resource: acl.ResourceTopic, Name: "T1"},
+		{Action: acl.ActionAny, Resource: acl.ResourceTopic, Name: "ZZ"},
+		{Action: acl.ActionAny, Resource: acl.ResourceTopic, Name: "Fresh"},
+		{Action: acl.ActionAny, Resource: acl.ResourceGroup, Name: "G"},
 	}}}
 }
 
@@ -275,7 +286,7 @@ func vsymRequestFor(api int, topic string, memberID string, gen int32) kmsg.Requ
 func VsymC24_Unauthorized() {
 	api := vsym_Param("api")
 	b, mon := vsymNewMonBroker()
-	b.h.authorizer = acl.NewAuthorizer(acl.Config{Enabled: true, DefaultPolicy: "deny", Principals: vsymMalloryRules(vsym_Choose("mallory-rules", 4))})
+	b.h.authorizer = acl.NewAuthorizer(acl.Config{Enabled: true, DefaultPolicy: "deny", Principals: vsymMalloryRules(vsym_Choose("mallory-rules", 5))})
 	b.h.autoCreateTopics = vsym_Bool("auto-create")
 	// alice prepares state
 	pr := b.vsymCall("alice", vsymProduceReq(1, []vsymTP{{"t0", 0}}, []byte{1, 2, 3})).(*kmsg.ProduceResponse)
@@ -311,6 +322,95 @@ func VsymC24_Unauthorized() {
 	vsym_Assert(len(codes) > 0, "C24/reply-has-an-error-slot")
 	for _, c := range codes {
 		vsym_Assert(vsymIsAuthCode(c), "C24/unauthorized-reply-carries-authorization-error")
+	}
+}
+
+// VsymC24_Mixed: one request naming an authorized topic (t1) and an unauthorized one (t0), in
+// either order, by name or by topic id: the unauthorized entry is refused and touches nothing,
+// whatever was decided for its neighbour.
+func VsymC24_Mixed() {
+	api := vsym_Param("api")
+	b, mon := vsymNewMonBroker()
+	b.h.authorizer = acl.NewAuthorizer(acl.Config{Enabled: true, DefaultPolicy: "deny", Principals: []acl.PrincipalRules{
+		{Name: "alice", Allow: []acl.Rule{{Action: acl.ActionAny, Resource: acl.ResourceAny, Name: "*"}}},
+		{Name: "mallory", Allow: []acl.Rule{{Action: acl.ActionAny, Resource: acl.ResourceTopic, Name: "t1"}}},
+	}})
+	for _, t := range []string{"t0", "t1"} {
+		pr := b.vsymCall("alice", vsymProduceReq(1, []vsymTP{{t, 0}}, []byte{1, 2, 3})).(*kmsg.ProduceResponse)
+		vsym_Assert(pr.Topics[0].Partitions[0].ErrorCode == 0, "C24/setup-produce")
+	}
+	mon.mutations, b.s3.writes, b.s3.reads = nil, nil, nil
+	order := []string{"t1", "t0"}
+	if vsym_Bool("unauthorized-first") {
+		order = []string{"t0", "t1"}
+	}
+	tps := []vsymTP{{order[0], 0}, {order[1], 0}}
+	var req kmsg.Request
+	switch api {
+	case 0:
+		req = vsymProduceReq(1, tps, []byte{9})
+	case 1:
+		req = vsymFetchReq(tps, 0)
+	case 101:
+		fr := vsymFetchReq(tps, 0)
+		fr.Version = 13
+		for i := range fr.Topics {
+			fr.Topics[i].TopicID = metadata.TopicIDForName(fr.Topics[i].Topic)
+			fr.Topics[i].Topic = ""
+		}
+		req = fr
+	case 2:
+		lo := vsymRequestFor(2, order[0], "", 0).(*kmsg.ListOffsetsRequest)
+		lo.Topics = append(lo.Topics, vsymRequestFor(2, order[1], "", 0).(*kmsg.ListOffsetsRequest).Topics...)
+		req = lo
+	case 3:
+		md := vsymRequestFor(3, order[0], "", 0).(*kmsg.MetadataRequest)
+		md.Topics = append(md.Topics, vsymRequestFor(3, order[1], "", 0).(*kmsg.MetadataRequest).Topics...)
+		req = md
+	}
+	resp := b.vsymCall("mallory", req)
+	vsym_Reach("mixed-answered")
+	id0 := metadata.TopicIDForName("t0")
+	check := func(name string, id [16]byte, code int16, data int) {
+		if name == "t0" || (name == "" && id == id0) {
+			vsym_Assert(vsymIsAuthCode(code), "C24/unauthorized-entry-refused-next-to-an-authorized-one")
+			vsym_Assert(data == 0, "C24/unauthorized-reply-carries-no-data")
+		} else if code == 0 {
+			// (whether the authorized neighbour is served or the whole request refused is the broker's choice)
+			vsym_Reach("authorized-neighbour-served")
+		}
+	}
+	switch r := resp.(type) {
+	case *kmsg.ProduceResponse:
+		vsym_Assert(len(r.Topics) == 2, "C24/every-entry-answered")
+		for _, t := range r.Topics {
+			check(t.Topic, [16]byte{}, t.Partitions[0].ErrorCode, 0)
+		}
+	case *kmsg.FetchResponse:
+		vsym_Assert(len(r.Topics) == 2, "C24/every-entry-answered")
+		for _, t := range r.Topics {
+			check(t.Topic, t.TopicID, t.Partitions[0].ErrorCode, len(t.Partitions[0].RecordBatches))
+		}
+	case *kmsg.ListOffsetsResponse:
+		vsym_Assert(len(r.Topics) == 2, "C24/every-entry-answered")
+		for _, t := range r.Topics {
+			d := 0
+			if t.Partitions[0].Offset > 0 {
+				d = 1
+			}
+			check(t.Topic, [16]byte{}, t.Partitions[0].ErrorCode, d)
+		}
+	case *kmsg.MetadataResponse:
+		vsym_Assert(len(r.Topics) == 2, "C24/every-entry-answered")
+		for _, t := range r.Topics {
+			check(*t.Topic, [16]byte{}, t.ErrorCode, len(t.Partitions))
+		}
+	}
+	for _, w := range b.s3.writes {
+		vsym_Assert(!strings.Contains(w, "/t0/"), "C24/unauthorized-request-writes-nothing-to-s3")
+	}
+	for _, rd := range b.s3.reads {
+		vsym_Assert(!strings.Contains(rd, "/t0/"), "C24/unauthorized-request-reads-no-records")
 	}
 }
 
